@@ -1,0 +1,40 @@
+//go:build verif
+
+// Contracts for package glyf, checked by /verif/engine (gvc).  This file
+// contains comments only; it is compiled only with the "verif" build tag.
+package glyf
+
+//@ func decodeLoca(enc *Encoded) (offs []int, err error)   props: C11 C02 C01
+//@   requires enc != nil
+//@   ensures err == nil ==> len(offs) >= 2 && (enc.LocaFormat == 0 || enc.LocaFormat == 1)
+//@   ensures err == nil ==> forall i int :: 0 <= i && i < len(offs) ==> 0 <= offs[i] && offs[i] <= len(enc.GlyfData)
+//@   ensures err == nil ==> forall i int :: 0 <= i && i < len(offs) - 1 ==> offs[i] <= offs[i+1]
+//@   ensures err == nil && enc.LocaFormat == 0 ==> len(offs) == len(enc.LocaData)/2 && forall i int :: 0 <= i && i < len(offs) ==> offs[i] == 2*be16(enc.LocaData, 2*i)
+//@   ensures err == nil && enc.LocaFormat == 1 ==> len(offs) == len(enc.LocaData)/4 && forall i int :: 0 <= i && i < len(offs) ==> offs[i] == be32(enc.LocaData, 4*i)
+//@   modifies nothing
+//@   loop 0
+//@     invariant len(offs) == n/2 && n == len(enc.LocaData) && n >= 4 && n%2 == 0 && fresh(offs) && off(offs) == 0 && 0 <= prev && prev <= len(enc.GlyfData)
+//@     invariant forall j int :: 0 <= j && j < iter ==> offs[j] == 2*be16(enc.LocaData, 2*j) && 0 <= offs[j] && offs[j] <= prev
+//@     invariant forall j int :: 0 <= j && j < iter - 1 ==> offs[j] <= offs[j+1]
+//@     invariant iter > 0 ==> prev == offs[iter-1]
+//@   loop 1
+//@     invariant len(offs) == n/4 && n == len(enc.LocaData) && n >= 8 && n%4 == 0 && fresh(offs) && off(offs) == 0 && 0 <= prev && prev <= len(enc.GlyfData)
+//@     invariant forall j int :: 0 <= j && j < iter ==> offs[j] == be32(enc.LocaData, 4*j) && 0 <= offs[j] && offs[j] <= prev
+//@     invariant forall j int :: 0 <= j && j < iter - 1 ==> offs[j] <= offs[j+1]
+//@     invariant iter > 0 ==> prev == offs[iter-1]
+
+//@ func encodeLoca(offs []int) (locaData []byte, locaFormat int16)   props: C11 C01
+//@   requires len(offs) >= 1 && len(offs) <= 65537
+//@   requires forall i int :: 0 <= i && i < len(offs) ==> 0 <= offs[i] && offs[i] <= offs[len(offs)-1] && offs[i]%2 == 0
+//@   requires offs[len(offs)-1] <= 4294967295
+//@   ensures locaFormat == 0 || locaFormat == 1
+//@   ensures locaFormat == 0 ==> len(locaData) == 2*len(offs) && forall i int :: 0 <= i && i < len(offs) ==> 2*be16(locaData, 2*i) == offs[i]
+//@   ensures locaFormat == 1 ==> len(locaData) == 4*len(offs) && forall i int :: 0 <= i && i < len(offs) ==> be32(locaData, 4*i) == offs[i]
+//@   ensures fresh(locaData)
+//@   modifies nothing
+//@   loop 0
+//@     invariant len(locaData) == 2*len(offs) && fresh(locaData) && off(locaData) == 0 && offs[len(offs)-1] <= 65535
+//@     invariant forall j int :: 0 <= j && j < iter ==> 2*be16(locaData, 2*j) == offs[j]
+//@   loop 1
+//@     invariant len(locaData) == 4*len(offs) && fresh(locaData) && off(locaData) == 0
+//@     invariant forall j int :: 0 <= j && j < iter ==> be32(locaData, 4*j) == offs[j]
